@@ -803,8 +803,8 @@ func evaluate(r *ev.Run, a *artefact, mu mutation, eps []entry) {
 			r.Violation("value with a swapped search hash not handed back unchanged: "+sigBase, detail(map[string]interface{}{"got": ev.FullHex(out)}))
 			continue
 		}
-		if searchColumn(ep) && carriesHash(mu.m) {
-			// searchable column, the value still begins with a well-formed search hash: unchanged (handled above) or
+		if searchColumn(ep) && a.search && carriesHash(mu.m) {
+			// searchable column, searchable stored form, the value still begins with a well-formed search hash: unchanged (handled above) or
 			// exactly the plaintext; an envelope revealed in place next to the hash / other bytes was never checked against the hash
 			if in(mu.allow, out) {
 				r.Count("outcome:column-search-revealed-exactly", 1)
@@ -858,8 +858,9 @@ var ProxyLayer func(r *ev.Run)
 
 func Run(r *ev.Run) {
 	r.Rule = "artefacts = {raw AcraStruct, raw AcraBlock, container(AcraStruct), container(AcraBlock), search-hash‖each} × plaintext lengths {1,5,33,200} (v1 keystore for lengths 1,33; v2 for 5,200; owner has one rotated key); " +
-		"modifications = single bit flips, truncations, appended suffixes (1 byte, 8 bytes, second envelope), every length field (AcraStruct data length, AcraBlock rest/key length, container total length, Secure Message length, Secure Cell iv/tag/msg lengths) forced to {0,1,2,len-1,len+1,0x7fff,0xffff,2^31-1,2^31,2^32-1,2^63-1,2^63,2^64-1}, type/backend/hash-function/envelope-id bytes to other values, AcraBlock key id sweep, part splices (header/key block/payload) between two values of the same and of another client, swapped search hashes; " +
+		"modifications = single bit flips, truncations, appended suffixes (1 byte, 8 bytes, second envelope), every length field (AcraStruct data length, AcraBlock rest/key length, container total length, Secure Message length, Secure Cell iv/tag/msg lengths) forced to {0,1,2,len-1,len+1,0x7fff,0xffff,2^31-1,2^31,2^32-1,2^63-1,2^63,2^64-1}, type/backend/hash-function/envelope-id bytes to other values, AcraBlock key id sweep, part splices (header/key block/payload) between two values of the same and of another client, swapped search hashes, one byte inserted in front of every field, junk / envelope tag bytes / a search hash / a second envelope inserted between hash and envelope and between container header and envelope, bytes and a search hash prepended, a swapped search hash combined with each suffix / insertion (both tiers in full); " +
 		"thorough = the complete enumeration (all bits, all truncation lengths, all 256 byte values, all 65 536 key ids); quick = fixed per-artefact quotas drawn from VERIF_SEED (all length-field edits for two of the four lengths, ~60 bits, ~40 truncation lengths, 24 byte values, 512 key ids); " +
+		"column entry points: a fresh subscriber chain per value, and the chain of one connection that has already served the intact value (column-session); wire layer: the extended searchable values placed in a database and read through the PostgreSQL and the MySQL proxy; " +
 		"one evaluation = one modified value at one reveal entry point; distinct = (artefact kind, modification class incl. the field hit, entry point, outcome class) tuples"
 	r.Assumptions = []string{
 		"crypto library replaced by the pure-Go gothemis stand-in (AES-256-GCM Secure Cell with strict header parsing, ECDH P-256 Secure Message); authentication strength is delegated to it, as the property delegates it to Themis",
@@ -1040,9 +1041,9 @@ func Run(r *ev.Run) {
 	// extension / insertion workload (extension.go)
 	r.RequireAtLeast("modifications:insert", 500)
 	r.RequireAtLeast("modifications:insert@hash|envelope", 16*6)
-	r.RequireAtLeast("modifications:prepend", 90)
-	r.RequireAtLeast("modifications:swaphash+append", 16*3*4)
-	r.RequireAtLeast("modifications:swaphash+insert", 16*3*3)
+	r.RequireAtLeast("modifications:prepend", 80)
+	r.RequireAtLeast("modifications:swaphash+append", 150) // 192 unless one-byte plaintexts collide (skipped as no-ops)
+	r.RequireAtLeast("modifications:swaphash+insert", 110) // 144 unless one-byte plaintexts collide
 	r.RequireAtLeast("modifications_of_searchable_values:append", 16*7)
 	r.RequireAtLeast("searchable_extension_judged_in_search_column", 1500)
 	r.RequireAtLeast("searchable_extension_judged_at_call_entry_points", 3000)
